@@ -1,5 +1,6 @@
 import OptunaVerif.Props.C15Gen
 import OptunaVerif.Props.C15
+import OptunaVerif.Lemmas.RankBridge
 /-!
 # C15 (translator tie, part 2) — the hypervolume theorems of `Props/C15.lean`, restated for the interpreters of the generated IR
 
@@ -9,7 +10,7 @@ normalised source text of `hssp.py` and of the two rank functions.  Here the pro
 over `Generated.HvMethods.prog`: hypervolume = number of dominated unit cells (`hvSpec`), in every dimension, with and without
 `assume_pareto`, ±∞ / touching rows / the reference check included.
 
-`*_partial`: for the rank functions and `hssp.py` there is no interpreter yet; what is proved about the code as written today is that its
+`*_partial` (first version of this file, kept): for `_lazy_contribs_update` / `_solve_hssp_2d` there is no interpreter; what is proved about that code as written today is that its
 text is the reviewed snapshot (`*_shape` in C15Gen) on which the hand models `Model/Rank.lean` / `Model/Hssp.lean` (and the sampled tie of
 `verif/props/c15.py`) stand; the theorems of `Props/C15.lean` about them are re-exported under `…_partial` names with that hypothesis spelled out.
 -/
@@ -179,5 +180,136 @@ theorem gen_greedy_loop_is_greedy_run_partial (r : Pt) (hd : r.length ≠ 2) (U 
 open OptunaVerif.HsspIR in
 example : topGen Generated.HsspMethods.prog.top (fun _ _ _ => []) [[1, 1], [1, 1], [4, 4], [2, 1], [4, 4], [1, 1]] [10, 11, 12, 13, 14, 15] 5 =
     .idx [10, 11, 12, 13, 14] := by decide
+
+/-! ## the two rank functions, for the interpreters of the generated statement lists (`Model/RankIR.lean`, `Generated/RankMethods.lean`)
+
+`Props/C15Gen.lean` proves the interpreters equal to the flag-free array references (`gen_calculate_rank_eq`, `gen_fast_rank_eq`, all inputs);
+`Lemmas/RankBridge.lean` proves the array reference of `_calculate_nondomination_rank` (scatter writes through index arrays) equal to the hand
+model `Rank.calcRank` (table unique row ↦ rank), with `_is_pareto_front(·, True)` = `frontSorted` and the loop bound `n_unique`.  So the rank
+theorems of `Props/C15.lean` hold of the code as generated.  `…_partial`: the CONSTRAINED branch of `_fast_non_domination_rank` is carried to
+the three-scatter reference `fastRef` (C15Gen); its identification with `Rank.fastRank` is not proved (it is compared on every generated
+case by the driver's "gen" field). -/
+
+open OptunaVerif.RankIR in
+/-- **gen_calculate_rank_eq_hand** — `_calculate_nondomination_rank` as generated = the hand model, rows of `d` columns, every `n_below` -/
+theorem gen_calculate_rank_eq_hand (d : Nat) (S : List Pt) (hS : ∀ q ∈ S, q.length = d) (nb : Option Int) :
+    calcGen Generated.RankMethods.prog frontH (uniqueLex S).length d S (nbRV nb) = .ints ((calcRank d S nb).map Int.ofNat) := by
+  rw [gen_calculate_rank_eq, calcRef_eq_calcRank d S hS nb]
+
+open OptunaVerif.RankIR in
+/-- **gen_rank_eq_peeling** — what the generated `_calculate_nondomination_rank` returns without `n_below` is THE peeling rank: there is a rank
+function `ρ` with "the rows of rank `j` are exactly the rows of rank ≥ j that no row of rank ≥ j dominates", the result is `ρ` row by row, and
+any other such function agrees with `ρ` on the rows (duplicates, ties, any dimension, no rows). -/
+theorem gen_rank_eq_peeling (d : Nat) (S : List Pt) (hS : ∀ q ∈ S, q.length = d) :
+    ∃ ρ : Pt → Nat, IsPeeling S ρ ∧
+      calcGen Generated.RankMethods.prog frontH (uniqueLex S).length d S .none_ = .ints (S.map (fun p => (ρ p : Int))) ∧
+      ∀ ρ', IsPeeling S ρ' → ∀ p ∈ S, ρ' p = ρ p := by
+  refine ⟨rankFn d S none, C15.rank_eq_peeling d S hS, ?_, fun ρ' h' => C15.peeling_rank_unique S ρ' _ h' (C15.rank_eq_peeling d S hS)⟩
+  have := gen_calculate_rank_eq_hand d S hS none
+  simpa [nbRV, calcRank, List.map_map, Function.comp_def] using this
+
+open OptunaVerif.RankIR in
+example : calcGen Generated.RankMethods.prog frontH 4 2 [[0, 1], [1, 0], [1, 1], [1, 1], [2, 2]] .none_ = .ints [0, 0, 1, 1, 2] := by decide
+
+open OptunaVerif.RankIR in
+/-- **gen_rank_n_below_spec** — the generated `_calculate_nondomination_rank` with `n_below` (more than one objective): there is a stopping
+level `K`; ranks below `K` are exact peeling ranks, every other row gets `K`; `K` is the first level at which at least `min(n_below, n_unique)`
+unique rows have been ranked. -/
+theorem gen_rank_n_below_spec (d : Nat) (S : List Pt) (hS : ∀ q ∈ S, q.length = d) (nBelow : Option Int)
+    (h1 : d ≠ 1) (ht : trivialCase S nBelow = false) :
+    calcGen Generated.RankMethods.prog frontH (uniqueLex S).length d S (nbRV nBelow) = .ints (S.map (fun p => (rankFn d S nBelow p : Int))) ∧
+    ∃ K, IsPeelingUpTo S (rankFn d S nBelow) K ∧
+      clipNBelow nBelow (uniqueLex S).length
+        ≤ (uniqueLex S).length - ((uniqueLex S).filter (fun p => rankFn d S nBelow p = K)).length ∧
+      (0 < K → (uniqueLex S).length - ((uniqueLex S).filter (fun p => K - 1 ≤ rankFn d S nBelow p)).length
+        < clipNBelow nBelow (uniqueLex S).length) := by
+  refine ⟨?_, C15.rank_n_below_spec d S hS nBelow h1 ht⟩
+  have := gen_calculate_rank_eq_hand d S hS nBelow
+  simpa [calcRank, List.map_map, Function.comp_def] using this
+
+open OptunaVerif.RankIR in
+example : calcGen Generated.RankMethods.prog frontH 5 2 [[0, 1], [1, 0], [1, 1], [1, 1], [2, 2], [3, 3]] (.int 3) = .ints [0, 0, 1, 1, 2, 2] := by
+  decide
+
+open OptunaVerif.RankIR in
+/-- **gen_fast_rank_unconstrained** — `_fast_non_domination_rank` as generated, calling the generated `_calculate_nondomination_rank`, without
+penalties: the hand model `Rank.fastRank`, every array, every `n_below` -/
+theorem gen_fast_rank_unconstrained (d : Nat) (S : List Pt) (hS : ∀ q ∈ S, q.length = d) (nBelow : Option Nat) :
+    fastGen Generated.RankMethods.prog (C15Gen.calcCallee frontH) d S .none_ (nbRV (nBelow.map Int.ofNat)) =
+      .ints (((fastRank d S none nBelow).getD []).map Int.ofNat) := by
+  have h := C15Gen.gen_fast_rank_eq_calc frontH d S none (nBelow.map Int.ofNat)
+  simp only [penRV] at h
+  rw [h]
+  unfold fastRef fastRank
+  by_cases hS0 : S.length = 0
+  · have : S = [] := List.length_eq_zero_iff.mp hS0
+    subst this
+    simp
+  · have hne : S.isEmpty = false := by
+      cases S with
+      | nil => simp at hS0
+      | cons a t => rfl
+    cases nBelow with
+    | none =>
+      have hpos : 0 < nbOr none S.length := by simp only [nbOr]; omega
+      simp only [Option.map_none, hS0, if_false, hpos, not_true_eq_false, hne, Bool.false_eq_true]
+      rw [calcRef_eq_calcRank d S hS]
+      simp [nbOr]
+    | some n =>
+      by_cases h0 : n = 0
+      · subst h0
+        have hpos : 0 < nbOr (some (Int.ofNat 0)) S.length := by simp only [nbOr]; simp; omega
+        simp only [Option.map_some, hS0, if_false, hpos, not_true_eq_false, hne, Bool.false_eq_true]
+        rw [calcRef_eq_calcRank d S hS]
+        simp [nbOr]
+      · have hpos : 0 < nbOr (some (Int.ofNat n)) S.length := by simp only [nbOr]; simp [h0]; omega
+        simp only [Option.map_some, hS0, if_false, hpos, not_true_eq_false, hne, Bool.false_eq_true]
+        rw [calcRef_eq_calcRank d S hS]
+        simp [nbOr, h0]
+
+open OptunaVerif.RankIR in
+/-- **gen_fast_rank_constrained_partial** — the constrained branch as generated, calling the generated callee: the three-scatter reference
+(`fastRef`: feasible rows by domination; infeasible rows AFTER every feasible rank, by the penalty alone; rows without penalty information
+AFTER every rank given so far; `n_below` reduced by the sizes of the groups already ranked), each callee result being the hand model's
+`calcRank` of that group.  PARTIAL: `fastRef = Rank.fastRank` is not proved here (hence `C15.rank_constrained_eq_spec` is not restated);
+the two are compared on every generated case by the driver (`"gen"` of the `rank` op). -/
+theorem gen_fast_rank_constrained_partial (d : Nat) (S : List Pt) (hS : ∀ q ∈ S, q.length = d) (pen : List (Option Int)) (nb : Option Int) :
+    fastGen Generated.RankMethods.prog (C15Gen.calcCallee frontH) d S (.pen pen) (nbRV nb) =
+      fastRef (fun d' m n => calcRef frontH (uniqueLex m).length d' m (some n)) d S (some pen) nb ∧
+    (∀ (m : List Bool) n, calcRef frontH (uniqueLex (selMask S m)).length d (selMask S m) (some n) =
+        (calcRank d (selMask S m) (some n)).map Int.ofNat) ∧
+    (∀ (q : List (Option Int)) n, calcRef frontH (uniqueLex (newaxisOf q)).length 1 (newaxisOf q) (some n) =
+        (calcRank 1 (newaxisOf q) (some n)).map Int.ofNat) := by
+  refine ⟨C15Gen.gen_fast_rank_eq_calc frontH d S (some pen) nb, ?_, ?_⟩
+  · intro m n
+    refine calcRef_eq_calcRank d _ ?_ (some n)
+    intro q hq
+    have hsub : ∀ (l : List Pt) (b : List Bool), ∀ x ∈ selMask l b, x ∈ l := by
+      intro l
+      induction l with
+      | nil => intro b x hx; cases b <;> simp [selMask] at hx
+      | cons a t ih =>
+        intro b x hx
+        cases b with
+        | nil => simp [selMask] at hx
+        | cons c cs =>
+          cases c
+          · simp only [selMask] at hx; exact List.mem_cons_of_mem _ (ih cs x hx)
+          · simp only [selMask, List.mem_cons] at hx
+            rcases hx with rfl | hx
+            · exact List.mem_cons_self ..
+            · exact List.mem_cons_of_mem _ (ih cs x hx)
+    exact hS q (hsub S m q hq)
+  · intro q n
+    refine calcRef_eq_calcRank 1 _ ?_ (some n)
+    intro r hr
+    simp only [newaxisOf, List.mem_map] at hr
+    obtain ⟨v, _, rfl⟩ := hr
+    rfl
+
+open OptunaVerif.RankIR in
+-- the input of seeded C15-2 (a NaN penalty next to ranked rows): the NaN-penalty row comes after every ranked row
+example : fastGen Generated.RankMethods.prog (C15Gen.calcCallee frontH) 2 [[0, 1], [1, 0], [1, 1], [1, 1], [2, 2], [3, 3]]
+    (.pen [some 0, some 1, none, some (-1), some 2, some 1]) .none_ = .ints [0, 2, 4, 1, 3, 2] := by decide
 
 end OptunaVerif.C15GenSpec
